@@ -189,7 +189,8 @@ class TableLineageAnalyzer:
                         table_lineage_storage=table_lineage_storage,
                         table_name_analyzer=table_name_analyzer
                     )
-                    assert len(merge) == n_column, "UNION的多个SELECT语句的字段数不同"
+                    if len(merge) != n_column:
+                        raise AnalyzerError("UNION的多个SELECT语句的字段数不同")
                     for i in range(n_column):
                         standard_column, quote_column_list = result[i]
                         quote_column_list.extend(merge[i][1])
@@ -269,7 +270,8 @@ class TableLineageAnalyzer:
                     n_column = len(result)
                 else:
                     merge = self.get_single_lateral_view_clause_column_name_to_quote_columns(element)
-                    assert len(merge) == n_column, "UNION的多个SELECT语句的字段数不同"
+                    if len(merge) != n_column:
+                        raise AnalyzerError("UNION的多个SELECT语句的字段数不同")
                     for i in range(n_column):
                         column_name, quote_column_list = result[i]
                         quote_column_list.extend(merge[i][1])
